@@ -18,7 +18,7 @@ import (
 func init() {
 	Register("C15", &Info{
 		Run:   runC15,
-		Quick: 4500, Thor: 150000,
+		Quick: 4500, Thor: 600000,
 		Rule: "a world = one ECH-capable fingerprint (parrots whose spec carries an ECH extension, HelloGolang, generated specs with an ECH extension) with Config.EncryptedClientHelloConfigList built by the harness (drawn config id, KDF/AEAD suite list, maximum_name_length, public name) (alone, followed by further configs, or behind an entry of an unknown version); the parrot shapes are also applied as custom specs with the server name pre-filled into the SNI extension; against the repository's or the std library's ECH-capable server that accepts (holds the key), accepts after a forced HelloRetryRequest, or rejects (holds another key and advertises retry configs), also after a forced HelloRetryRequest; a third of the parrot worlds call BuildHandshakeState (optionally BuildHandshakeStateWithoutSession first) before Handshake, so the hello is marshaled and the inner hello sealed more than once; oracle: the secret name never appears in the client's plaintext flight, the outer SNI is the public name, on acceptance both sides report ECHAccepted and the secret name, data echoes and HandshakeState.Hello.Raw is the last outer hello on the wire, on rejection the client returns ECHRejectionError carrying exactly the server's retry config list after verifying the certificate against the public name; non-trivial = an encrypted_client_hello extension of type outer with the drawn config id on the wire; distinct = (fingerprint, config, server behaviour, peer)",
 		Assumptions: []string{"ECHConfig encoding (draft-ietf-tls-esni-18 / RFC 9849 version 0xfe0d, DHKEM(X25519, HKDF-SHA256)) is produced by the harness; both servers decode it independently"},
 		Real:        []string{"utls client ECH path from /repo", "utls or std server with ECH keys"},
